@@ -2,6 +2,7 @@ package chk
 
 import (
 	"fmt"
+	"go/constant"
 	"go/token"
 	"strings"
 
@@ -348,11 +349,13 @@ func classifyLoop(p *Prog, fn *ssa.Function, li *loopInfo, pf map[*ssa.Function]
 			continue
 		}
 		good := true
+		cK, _ := constInt(bo.Y)
+		emptyEnds := (bo.Op == token.GTR && cK >= 0) || (bo.Op == token.GEQ && cK >= 1) || (bo.Op == token.NEQ && cK == 0)
 		for i, e := range ph.Edges {
 			if !li.blocks[li.header.Preds[i]] {
 				continue
 			}
-			if drop, ok := droppedPrefix(e, ph, 0); !ok || drop < 1 {
+			if drop, ok := droppedPrefix(e, ph, 0, emptyEnds); !ok || drop < 1 {
 				good = false
 				break
 			}
@@ -631,15 +634,39 @@ func recursionCycles(p *Prog, fns []*ssa.Function) []string {
 // droppedPrefix: v is ph cut by a chain of slice expressions ph[a:][b:c]…; the result is a lower
 // bound of the number of leading elements dropped (each low bound is a constant, a value that is
 // non-negative by its type, or their sum).
-func droppedPrefix(v ssa.Value, ph *ssa.Phi, depth int) (int64, bool) {
+func droppedPrefix(v ssa.Value, ph *ssa.Phi, depth int, emptyEnds bool) (int64, bool) {
 	if v == ssa.Value(ph) {
 		return 0, true
 	}
-	sl, ok := v.(*ssa.Slice)
-	if !ok || depth > 6 {
+	if depth > 6 {
 		return 0, false
 	}
-	d, ok := droppedPrefix(sl.X, ph, depth+1)
+	// the rest is given up (s = ""): the whole of it is dropped (callers make sure the loop condition demands a
+	// non-empty value, emptyEnds: len(x) > c with c >= 0, len(x) >= c with c >= 1, len(x) != 0)
+	if c, ok := v.(*ssa.Const); ok && emptyEnds {
+		if c.Value == nil || (c.Value.Kind() == constant.String && constant.StringVal(c.Value) == "") {
+			return 1 << 30, true
+		}
+	}
+	// a merge inside the trip: the least of what its ways drop
+	if m, ok := v.(*ssa.Phi); ok && m != ph {
+		best := int64(-1)
+		for _, e := range m.Edges {
+			d, ok := droppedPrefix(e, ph, depth+1, emptyEnds)
+			if !ok {
+				return 0, false
+			}
+			if best < 0 || d < best {
+				best = d
+			}
+		}
+		return best, best >= 0
+	}
+	sl, ok := v.(*ssa.Slice)
+	if !ok {
+		return 0, false
+	}
+	d, ok := droppedPrefix(sl.X, ph, depth+1, emptyEnds)
 	if !ok {
 		return 0, false
 	}
@@ -653,8 +680,38 @@ func droppedPrefix(v ssa.Value, ph *ssa.Phi, depth int) (int64, bool) {
 		}
 		return d + c + k, true
 	}
-	if !nonNegByType(base) || k < 0 {
+	if (!nonNegByType(base) && !nonNegByGuard(base, sl.Block())) || k < 0 {
 		return 0, false
 	}
 	return d + k, true
+}
+
+// nonNegByGuard: a dominating test at block b establishes v >= 0 (v >= 0, !(v < 0), v > -1, or v != -1 for the
+// result of an Index* search, which is never below -1).
+func nonNegByGuard(v ssa.Value, b *ssa.BasicBlock) bool {
+	for _, dc := range dominatingConds(b) {
+		bo, ok := dc.cond.(*ssa.BinOp)
+		if !ok || bo.X != v {
+			continue
+		}
+		c, ok := constInt(bo.Y)
+		if !ok {
+			continue
+		}
+		op := bo.Op
+		if !dc.taken {
+			op = negateCompare(op)
+		}
+		switch {
+		case op == token.GEQ && c >= 0, op == token.GTR && c >= -1:
+			return true
+		case op == token.NEQ && c == -1:
+			if call, ok := v.(*ssa.Call); ok {
+				if sc := call.Call.StaticCallee(); sc != nil && sc.Pkg != nil && (sc.Pkg.Pkg.Path() == "strings" || sc.Pkg.Pkg.Path() == "bytes") && strings.HasPrefix(sc.Name(), "Index") {
+					return true
+				}
+			}
+		}
+	}
+	return false
 }
